@@ -98,6 +98,19 @@ def _collect(res, what):
     return res
 
 
+def _sample_per_reason(bad, cap=150):
+    """rejections to reproduce / report: at most `cap` per reason, first occurrences of every distinct reason first"""
+    seen, first, rest = {}, [], []
+    for b in bad:
+        k = seen.get(b[1], 0)
+        seen[b[1]] = k + 1
+        if k == 0:
+            first.append(b)
+        elif k < cap:
+            rest.append(b)
+    return first + rest
+
+
 def _ser_start(s):
     return s.startswith('{"ev":"ser"')
 
@@ -225,12 +238,13 @@ def c12(tier, repo=None):
     bad = [(b[0], b[2]) for b in res["bad"]]
     verdict = vlib.Verdict("C12")
     confirmed = 0
+    rerun = _sample_per_reason(bad)
     if bad:
         # reproduce: second run of the same cases with the same seed -> same rejection
-        again_ids = sorted({(b[0].rsplit(".", 1)[0] if variants > 1 else b[0]) for b in bad})
+        again_ids = sorted({(b[0].rsplit(".", 1)[0] if variants > 1 else b[0]) for b in rerun})
         lines2, _ = ser_replay([by_id[i] for i in again_ids], variants=variants, repo=repo)
         bad2 = {(b[0], b[2]) for b in ser_validate(lines2)["bad"]}
-        for cid, reason in bad:
+        for cid, reason in rerun:
             base = cid.rsplit(".", 1)[0] if variants > 1 else cid
             if (cid, reason) in bad2:
                 confirmed += 1
@@ -238,7 +252,7 @@ def c12(tier, repo=None):
                     verdict.violation(sig, {"case": {"id": base, "v": by_id[base]["v"]}, "observation": obs[cid]}, reason)
             else:
                 log("  note: rejection of %s (%s) did not reproduce: not counted" % (cid, reason))
-    code, n_new, n_known = verdict.finish()
+    code, n_new, n_known = verdict.finish(max_report=8)
     by_reason = {}
     for _, reason in bad:
         by_reason[reason] = by_reason.get(reason, 0) + 1
@@ -256,7 +270,7 @@ def c12(tier, repo=None):
                    "observation validated by TLC against spec/SerObs.tla; distinct = distinct (shape skeleton, type, decode outcome); "
                    "non-trivial = Marshal succeeded (the value is claimed representable)",
            "samples": [obs[k] for k in some], "exhaustive": exhaustive, "generators": gens, "variants_per_shape": variants,
-           "trace_validation_states": res["states"], "rejected": len(bad), "rejected_by_reason": by_reason, "confirmed": confirmed,
+           "trace_validation_states": res["states"], "rejected": len(bad), "rejected_by_reason": by_reason, "rerun_for_reproduction": len(rerun), "confirmed": confirmed,
            "known_findings": n_known, "transcription_agreement": res["stat"], "drift": [list(d) for d in res["drift"][:20]],
            "selftest": ser_selftest(lines)}
     vlib.write_evidence("C12", tier, "model_checking", cov, assumptions=[
@@ -364,13 +378,14 @@ def c14(tier, repo=None):
     for ln in lines:
         o = json.loads(ln)
         obs[o["id"] + "/" + o["path"]] = o
+    rerun = _sample_per_reason(bad)
     if bad:
-        again = sorted({b[0].split("/")[0] for b in bad})
+        again = sorted({b[0].split("/")[0] for b in rerun})
         lines2, _ = cat_replay([by_id[i] for i in again], repo=repo)
         bad2 = {}
         for b in cat_validate(lines2)["bad"]:
             bad2.setdefault(b[0], set()).add(b[2])
-        for key, reason in bad:
+        for key, reason in rerun:
             # a nondeterministic function may be rejected for another reason the second time: any rejection of the same call confirms
             if key in bad2 and (reason in bad2[key] or reason.startswith("nondeterministic") or any(r.startswith("nondeterministic") for r in bad2[key])
                                 or reason.startswith("panic") and any(r.startswith("panic") for r in bad2[key])):
@@ -395,7 +410,7 @@ def c14(tier, repo=None):
                    "one observation line per (sequence, entry point), validated by TLC against spec/ConcatObs.tla; distinct = distinct (kind, chunk sequence); "
                    "non-trivial = at least two chunks and the concatenation succeeded",
            "samples": [obs[k] for k in some], "exhaustive": exhaustive, "generators": gens,
-           "trace_validation_states": res["states"], "rejected": len(bad), "rejected_by_reason": by_reason, "confirmed": confirmed,
+           "trace_validation_states": res["states"], "rejected": len(bad), "rejected_by_reason": by_reason, "rerun_for_reproduction": len(rerun), "confirmed": confirmed,
            "known_findings": n_known, "transcription_agreement": res["stat"], "drift": [list(d) for d in res["drift"][:20]],
            "selftest": cat_selftest(lines)}
     vlib.write_evidence("C14", tier, "model_checking", cov, assumptions=[
@@ -431,8 +446,10 @@ def replay_c12(path):
     rep = json.load(open(path))
     case, o = rep["case"]["case"], rep["case"]["observation"]
     k = int(o["id"].rsplit(".", 1)[1]) if "." in o["id"] else 0
-    lines, _ = ser_replay([case], variants=k + 1 if "." in o["id"] else 1)
+    lines, _ = ser_replay([case], variants=max(k + 1, 2) if "." in o["id"] else 1)
     lines = [ln for ln in lines if json.loads(ln)["id"] == o["id"]]
+    if not lines:
+        raise Inconclusive("replay: the harness produced no observation with id %s" % o["id"])
     res = ser_validate(lines, nproc=1)
     return _replay_verdict("C12", res["bad"], ser_sigs, {"_path": path, "case": case})
 
